@@ -15,6 +15,7 @@ import NgoVerif.DriverMinMax
 import NgoVerif.DriverSymmetry
 import NgoVerif.DriverDuplication
 import NgoVerif.DriverSumRewrite
+import NgoVerif.DriverMathSimp
 /-!
 # Line-protocol driver: one s-expression request per line on stdin, one s-expression answer per line on stdout.
 
@@ -61,7 +62,7 @@ def runMakeUnique (u : UniqueVars) : List Sexp → List String → Option (List 
   | _, _ => none
 
 /-- handlers contributed by the per-pass driver files; tried in order -/
-def extHandlers : List (Sexp → Option Sexp) := [handleCleanup, handleBinding, handleNormalize, handleSumAgg, handleDependency, handleUnused, handleMinMax, handleSymmetry, handleDuplication, handleSumRewrite]
+def extHandlers : List (Sexp → Option Sexp) := [handleCleanup, handleBinding, handleNormalize, handleSumAgg, handleDependency, handleUnused, handleMinMax, handleSymmetry, handleDuplication, handleSumRewrite, handleMathSimp]
 
 def tryExt (req : Sexp) : List (Sexp → Option Sexp) → Sexp
   | [] => unsupported "unknown op"
